@@ -485,6 +485,17 @@ inline Bits gen_bits(int fmt, int maxw, int maxh) {
   return b;
 }
 
+// a Bits description with fixed geometry and content seed (no random draws)
+inline Bits gen_bits_fixed(int fmt, int w, int h, uint64_t seed) {
+  Bits b;
+  b.fmt = fmt;
+  b.w = w;
+  b.h = h;
+  b.fill = FILL_PREMUL;
+  b.seed = seed;
+  return b;
+}
+
 inline std::string hex(uint32_t v) { return vf::fmt("%08x", v); }
 
 }  // namespace img
